@@ -39,6 +39,7 @@ pub fn generic_replay(case: &Value) -> Option<String> {
         Some("c01chains") => { let v = props::c01::job_chains(case); v["problems"].as_array().and_then(|a| a.first()).map(|p| p["what"].as_str().unwrap_or("").to_string()) }
         Some("c01big") => props::c01::replay_big(case),
         Some("c02big") => props::c02::replay_big(case),
+        Some("c13big") => props::c13::replay_big(case),
         Some("c12big") => { let v = props::c12::job(case); if let Some(e) = v.get("error") { Some(format!("job error: {e}")) } else { v["problems"].as_array().and_then(|a| a.first()).map(|p| p.as_str().unwrap_or("").to_string()) } }
         Some("prep_tree") => props::c07::replay_tree(case),
         Some("reject") => props::c14::replay(case),
